@@ -12,7 +12,7 @@ use std::panic::{catch_unwind, AssertUnwindSafe};
 use std::rc::Rc;
 
 fn pf(k: usize) -> TokenCaptureFlags {
-    if k >= 100000 { return TokenCaptureFlags::all(); }
+    if k >= 2000 { return TokenCaptureFlags::all(); }
     if k % 3 == 0 { TokenCaptureFlags::empty() } else { TokenCaptureFlags::from_bits_truncate(((k * 37 + 11) % 32) as u8) }
 }
 fn opt(o: Option<String>) -> String {
